@@ -3,9 +3,47 @@ from vf import ch
 from . import l2, l15
 
 
+JSON_MODULES = ["fastavro.io.json_encoder", "fastavro.io.json_decoder", "fastavro.io.parser", "fastavro.json_write",
+                "fastavro.json_read"]
+
+
+def probe_thresholds(run):
+    """unwinding assertion for the record-count bound (<= 2 records per call are explored symbolically): a size
+    threshold in the JSON codec's source beyond that bound is probed natively just below, at and above it; if the probe
+    passes the threshold is still reported (the symbolic exploration does not reach it)"""
+    from vf import bounds
+    ths = bounds.size_thresholds(JSON_MODULES, 3)
+    if not ths:
+        run.obligation("bounds.no_size_threshold_beyond_the_bound", "discharged",
+                       "no comparison of a container size with a literal > 3 in " + ", ".join(JSON_MODULES), paths=1)
+        return
+    for (mod, fn, line, lit) in ths:
+        ob = f"bounds.threshold.{mod.split('.')[-1]}.{fn}.{lit}"
+        if lit > 50000:
+            run.obligation(ob, "inconclusive", f"size threshold {lit} at {mod}:{line} lies beyond the explored record counts", paths=1)
+            continue
+        verdict, detail = "inconclusive", (f"size threshold {lit} at {mod}:{line} ({fn}) lies beyond the symbolically explored record "
+                                            "counts; probed natively at the threshold without a failure")
+        for n in (lit - 1, lit, lit + 1, 2 * lit + 1):
+            for name in ("rec_flat", "prim_long"):
+                ok, d = l15.ob_count(name, n)
+                run.validated += 1
+                if not ok:
+                    text = ("import sys, os\nsys.path[:0]=[os.environ.get('VF_ROOT','/verif'), os.environ.get('VF_REPO','/repo')]\n"
+                            f"from props.l15 import ob_count\nok, d = ob_count({name!r}, {n})\n"
+                            "print('REPRODUCED' if not ok else 'not reproduced', d)\nsys.exit(0 if ok else 1)\n")
+                    v = run.violation(ob, f"json:count-threshold:{lit}", f"{d} (size threshold {lit} at {mod}:{line})", text)
+                    verdict, detail = v, d
+                    break
+            if verdict != "inconclusive":
+                break
+        run.obligation(ob, verdict, detail, paths=1)
+
+
 def run(run, tier):
     hs = l15.harnesses(tier, run.seed)
     ch.run_harnesses(run, "C15", hs, timeout=150 if tier == "quick" else 500)
+    probe_thresholds(run)
     l2.describe(run, tier)
     run.bounds += ["schemas: " + ", ".join(l15.SCHEMAS if tier == "thorough" else l15.QUICK) + "; data: structure symbolic (branches, lengths "
                    "<= 1 quick / 2 thorough, optional fields), every leaf from a pool (JSON text of a symbolic number/string would "
